@@ -18,6 +18,8 @@ Record st := { lastp : list (key * list Z); resp : list key (* (endpoint that se
                offpath : list Z (* pair indices whose server side was created by a datagram from an address the
                                    attacker owns (a copy of the client's Initial that won the race): that
                                    connection's path leads to the attacker, who relays what it likes *);
+               vnok : list key (* clients seen - by the probe right before an unprotected datagram - still handshaking
+                                  without having processed a single CRYPTO or ACK frame: no server packet accepted yet *);
                pendu : option (key * list Z) (* state of a connection right before it was handed a datagram that
                                                 consists of an unprotected (Retry / Version Negotiation) packet *) }.
 
@@ -41,7 +43,7 @@ Definition final_ok (s : st) : bool :=
     end) (lastp s).
 
 Definition step (s : st) (r : list Z) : option st :=
-  if tag r =? 8 then Some {| lastp := aset (lastp s) (rkey r) r; resp := resp s; connected := connected s; born := born s; closed := closed s; genuine := genuine s; lossy := lossy s; restarted := restarted s; gone := gone s; rotating := rotating s; shortcid := shortcid s; offpath := offpath s; pendu := pendu s |}
+  if tag r =? 8 then Some {| lastp := aset (lastp s) (rkey r) r; resp := resp s; connected := connected s; born := born s; closed := closed s; genuine := genuine s; lossy := lossy s; restarted := restarted s; gone := gone s; rotating := rotating s; shortcid := shortcid s; offpath := offpath s; vnok := vnok s; pendu := pendu s |}
   else if tag r =? 2 then
     (* routing: a datagram produced by connection [origin] is handed to that connection only *)
     let out := fld r 5 in
@@ -66,26 +68,26 @@ Definition step (s : st) (r : list Z) : option st :=
     else if (out =? 2) && ((fld r 9 =? 6) || (fld r 9 =? 7)) && (2 <=? fld r 3) then
       Some {| lastp := lastp s; resp := resp s; connected := connected s; born := born s; closed := closed s; genuine := genuine s;
               lossy := lossy s; restarted := restarted s; gone := gone s; rotating := rotating s; shortcid := shortcid s;
-              offpath := (fld r 6) mod 1000 :: offpath s; pendu := pendu s |}
-    else if out =? 3 then Some {| lastp := lastp s; resp := (rep r, origin mod 1000) :: resp s; connected := connected s; born := born s; closed := closed s; genuine := genuine s; lossy := lossy s; restarted := restarted s; gone := gone s; rotating := rotating s; shortcid := shortcid s; offpath := offpath s; pendu := pendu s |}
+              offpath := (fld r 6) mod 1000 :: offpath s; vnok := vnok s; pendu := pendu s |}
+    else if out =? 3 then Some {| lastp := lastp s; resp := (rep r, origin mod 1000) :: resp s; connected := connected s; born := born s; closed := closed s; genuine := genuine s; lossy := lossy s; restarted := restarted s; gone := gone s; rotating := rotating s; shortcid := shortcid s; offpath := offpath s; vnok := vnok s; pendu := pendu s |}
     else if (out =? 1) && ((fld r 9 =? 0) || (fld r 9 =? 2)) then
       Some {| lastp := lastp s; resp := resp s; connected := connected s; born := born s; closed := closed s;
-              genuine := (rep r, fld r 6) :: genuine s; lossy := lossy s; restarted := restarted s; gone := gone s; rotating := rotating s; shortcid := shortcid s; offpath := offpath s; pendu := pendu s |}
+              genuine := (rep r, fld r 6) :: genuine s; lossy := lossy s; restarted := restarted s; gone := gone s; rotating := rotating s; shortcid := shortcid s; offpath := offpath s; vnok := vnok s; pendu := pendu s |}
     else Some s
   else if (tag r =? 3) && ((fld r 4 =? 20) || (fld r 4 =? 21)) then
     (* a new incarnation under this pair index has not connected yet *)
     Some {| lastp := lastp s; resp := resp s;
             connected := filter (fun k => negb (key_eqb k (rkey r))) (connected s);
-            born := rkey r :: born s; closed := closed s; genuine := genuine s; lossy := lossy s; restarted := restarted s; gone := gone s; rotating := rotating s; shortcid := shortcid s; offpath := offpath s; pendu := pendu s |}
+            born := rkey r :: born s; closed := closed s; genuine := genuine s; lossy := lossy s; restarted := restarted s; gone := gone s; rotating := rotating s; shortcid := shortcid s; offpath := offpath s; vnok := vnok s; pendu := pendu s |}
   else if (tag r =? 3) && (fld r 4 =? 11) then
     Some {| lastp := lastp s; resp := resp s; connected := connected s; born := born s;
-            closed := rkey r :: closed s; genuine := genuine s; lossy := lossy s; restarted := restarted s; gone := gone s; rotating := rotating s; shortcid := shortcid s; offpath := offpath s; pendu := pendu s |}
+            closed := rkey r :: closed s; genuine := genuine s; lossy := lossy s; restarted := restarted s; gone := gone s; rotating := rotating s; shortcid := shortcid s; offpath := offpath s; vnok := vnok s; pendu := pendu s |}
   else if (tag r =? 13) && (fld r 2 =? 11) then
     Some {| lastp := lastp s; resp := resp s; connected := connected s; born := born s; closed := closed s;
-            genuine := genuine s; lossy := lossy s; restarted := true; gone := gone s; rotating := rotating s; shortcid := shortcid s; offpath := offpath s; pendu := pendu s |}
+            genuine := genuine s; lossy := lossy s; restarted := true; gone := gone s; rotating := rotating s; shortcid := shortcid s; offpath := offpath s; vnok := vnok s; pendu := pendu s |}
   else if (tag r =? 5) && (fld r 4 =? 1) then
     Some {| lastp := lastp s; resp := resp s; connected := connected s; born := born s; closed := closed s;
-            genuine := genuine s; lossy := lossy s; restarted := restarted s; gone := rkey r :: gone s; rotating := rotating s; shortcid := shortcid s; offpath := offpath s; pendu := pendu s |}
+            genuine := genuine s; lossy := lossy s; restarted := restarted s; gone := rkey r :: gone s; rotating := rotating s; shortcid := shortcid s; offpath := offpath s; vnok := vnok s; pendu := pendu s |}
   else if tag r =? 11 then None
   (* Retry and Version Negotiation packets are not protected by the connection's keys: whatever their
      bytes, a connection other than a client that is still handshaking neither changes state nor
@@ -93,7 +95,7 @@ Definition step (s : st) (r : list Z) : option st :=
   else if tag r =? 19 then
     Some {| lastp := lastp s; resp := resp s; connected := connected s; born := born s; closed := closed s;
             genuine := genuine s; lossy := lossy s; restarted := restarted s; gone := gone s; rotating := rotating s;
-            shortcid := shortcid s; offpath := offpath s; pendu := Some (rkey r, r) |}
+            shortcid := shortcid s; offpath := offpath s; vnok := vnok s; pendu := Some (rkey r, r) |}
   else if tag r =? 18 then
     match pendu s with
     | Some (k, p) =>
@@ -104,7 +106,9 @@ Definition step (s : st) (r : list Z) : option st :=
                  && (pf p 19 =? pf r 19) && (pf p 23 =? pf r 23))
           then Some {| lastp := lastp s; resp := resp s; connected := connected s; born := born s; closed := closed s;
                        genuine := genuine s; lossy := lossy s; restarted := restarted s; gone := gone s; rotating := rotating s;
-                       shortcid := shortcid s; offpath := offpath s; pendu := None |}
+                       shortcid := shortcid s; offpath := offpath s;
+                       vnok := if (rep r =? 0) && (pf p 0 =? 0) && (sf p 11 =? 0) && (sf p 15 =? 0) then k :: vnok s else vnok s;
+                       pendu := None |}
           else None
         else Some s
     | None => Some s
@@ -131,7 +135,8 @@ Definition step (s : st) (r : list Z) : option st :=
       else if (fld r 5 =? 3) && (rep r =? 0) && negb (existsb (key_eqb (rkey r)) (connected s))
               && existsb (fun p => fst p =? 1) (resp s) then Some s
       (* a Version Negotiation packet may end a client that has not yet accepted any server packet *)
-      else if (fld r 5 =? 1) && (rep r =? 0) && negb (existsb (key_eqb (rkey r)) (genuine s)) then Some s
+      else if (fld r 5 =? 1) && (rep r =? 0)
+              && (negb (existsb (key_eqb (rkey r)) (genuine s)) || existsb (key_eqb (rkey r)) (vnok s)) then Some s
       (* heavy corruption or loss on the path is a denial of service by loss, not a forgery *)
       else if (fld r 5 =? 6) && lossy s then Some s
       (* the server process restarted: what it cannot answer with a stateless reset (long-header
@@ -144,7 +149,7 @@ Definition step (s : st) (r : list Z) : option st :=
          verify leave it able to accept the genuine ones) *)
       else if (fld r 5 =? 6) && (rep r =? 1) && negb (existsb (key_eqb (rkey r)) (connected s)) then Some s
       else None
-    else if fld r 4 =? 2 then Some {| lastp := lastp s; resp := resp s; connected := rkey r :: connected s; born := born s; closed := closed s; genuine := genuine s; lossy := lossy s; restarted := restarted s; gone := gone s; rotating := rotating s; shortcid := shortcid s; offpath := offpath s; pendu := pendu s |}
+    else if fld r 4 =? 2 then Some {| lastp := lastp s; resp := resp s; connected := rkey r :: connected s; born := born s; closed := closed s; genuine := genuine s; lossy := lossy s; restarted := restarted s; gone := gone s; rotating := rotating s; shortcid := shortcid s; offpath := offpath s; vnok := vnok s; pendu := pendu s |}
     else Some s
   else if tag r =? 10 then
     (* after a restart the counters of the forgotten server connections are frozen: no comparison *)
@@ -152,4 +157,4 @@ Definition step (s : st) (r : list Z) : option st :=
   else Some s.
 
 Definition monitor (i : ops) (o : outs) : option Z :=
-  snd (run_from step 0 {| lastp := []; resp := []; connected := []; born := []; closed := []; genuine := []; lossy := (100 <=? param i 6 0) || (100 <=? param i 2 0); restarted := false; gone := []; rotating := 0 <? param i 57 0; shortcid := param i 56 8 <=? 2; offpath := []; pendu := None |} o).
+  snd (run_from step 0 {| lastp := []; resp := []; connected := []; born := []; closed := []; genuine := []; lossy := (100 <=? param i 6 0) || (100 <=? param i 2 0); restarted := false; gone := []; rotating := 0 <? param i 57 0; shortcid := param i 56 8 <=? 2; offpath := []; vnok := []; pendu := None |} o).
